@@ -556,7 +556,10 @@ def run(ctx, rep):
             return 'a constant: the designed zero of a bare localisation tag, or None for "unresolved" (the caller raises)'
         calls = [c_ for c_ in ast.walk(node.value) if isinstance(c_, ast.Call)]
         names = {norm_stmt(c_.func) for c_ in calls}
+        free = {x.id for x in ast.walk(node.value) if isinstance(x, ast.Name)}
+        # nothing but the parameters and built-ins: no table, no module-level name, no other local
         if names <= {'round', 'float', 'int', 'abs', '_parse_obs_mass_from_proforma_str'} and \
+                free <= {'mod', 'precision', 'round', 'float', 'int', 'abs', '_parse_obs_mass_from_proforma_str'} and \
                 {d for d in av.deps if not d.startswith('@')} <= {'mod', 'precision'}:
             return 'a numeric shift (or an observed mass) is a number: it has no isotopic mode'
         return None
